@@ -1,22 +1,3 @@
-//! C21, C23, C24, C25 (and the constraint-level part of C22, shared with vstark through vgen).
-
-use vcore::*;
-
-mod c21;
-mod c23;
-mod c24;
-mod c25;
-
 fn main() {
-    vref::field::startup_selfcheck();
-    let c22 = Prop {
-        id: "C22",
-        level: "exploration",
-        rule: vgen::c22::C22_RULE,
-        assumptions: vgen::c22::c22_assumptions(),
-        subs: vgen::c22::c22_subs(),
-        required: vgen::c22::C22_REQUIRED.to_vec(),
-        required_thorough: vec![],
-    };
-    main_with(vec![c21::prop(), c22, c23::prop(), c24::prop(), c25::prop()]);
+    vcore::main_with(vair::props());
 }
